@@ -124,6 +124,12 @@ pub fn run(tier: Tier) -> Report {
             }
         }
     }
+    // macroblock *counts* on both sides of 2^12 and 2^16 reached with two large dimensions at once
+    // (a count is a product: per-axis extremes such as 65535 x 1 stay far below it)
+    sizes.extend([(1024, 1008), (1024, 1024), (1040, 1024), (4080, 4112), (4096, 4096), (65521, 241)]);
+    if tier.thorough() {
+        sizes.extend([(4112, 4096), (65535, 257), (8192, 2048), (2048, 8208)]);
+    }
     // all pairs of the boundary lattice of dimensions under the pixel cap
     sizes.extend(size_lattice(if tier.thorough() { 1 << 20 } else { 1 << 16 }));
     for &(w, h) in &sizes {
